@@ -11,6 +11,14 @@ CHECKS = {
         'note': TB + 'Not decided: limit_denominator optimality, float round-trip; i64 overflow excluded by the quantifier.',
         'technique': 'encapsulation enumeration over HIR+MIR, abstract interpretation (template constraints), operator-impl sibling rule',
     },
+    'C14': {
+        'text': 'Static: the two QASM name tables are mutually inverse for every kind but UnknownGate and use the standard names; the arity table equals '
+                'the reference; the opaque prelude declares every gate name of the property with the arity of num_qubits() and a parameter exactly when '
+                'to_qasm prints one; every GateWriter method emits on every Ok path or returns Err (barrier/reset/conditional/U are errors), from_qasm_parser '
+                'propagates its three error sources with `?` and drops no Result; Display prints num_qubits() and every gate in order.',
+        'note': TB + 'Not decided: decimal<->rational phase exactness, register layout (external openqasm crate), the zero-gate circuit qubit count.',
+        'technique': 'dispatch-table agreement (writer vs reader vs prelude string), error-discipline path rule, printer structure rule',
+    },
     'C15': {
         'text': 'Static: Gate::adjoint agrees with the adjoint table derived from reference gate semantics (same Hadamard set, negated phase) and '
                 'Circuit::adjoint reverses and adjoints every gate; the number of gates pushed by push_basic_gates equals num_basic_gates for every '
